@@ -478,6 +478,6 @@ func checkC20Doc(c *C20Case, st *Stats, fileTag ...string) error {
 
 func init() {
 	Register("C20",
-		"a generated tree is rendered with drawn whitespace/newlines at every token boundary (LF, CRLF, blank lines, occasionally a raw newline inside a string, now and then a string or a prefix line of 4095-70000 bytes), optional text with newlines before the root (multi-line block comments, line comments, references to a multi-line environment variable, any bracket but the one that opens the root, e.g. an '[INFO]' log prefix before an object) (occasionally 255-1000 blank lines, now and then 65535-131072), bare CR and CR LF layouts, and exactly one injected syntax error of a kind whose message cites a line (invalid literal in a list / as an object value, detected at its terminating delimiter; bad character where a key must start; bad character after a key; bad character after a nested container in an object), at a drawn nesting depth; the generator records the byte offset of the detecting character. Oracle: if the error text says 'on line N' (the last such phrase counts) then N == 1 + number of newline bytes before that offset; via ParseList, ParseObject and ParseFile; one document in six is re-encoded to Latin-1 bytes (ill-formed UTF-8: usually rejected without a line, but if a line is cited it must be the right one). Non-trivial = at least one newline before the error and the error inside a nested container, or newlines in text before the root bracket. Distinct = distinct FNV-64a hash of the case JSON.",
+		"a generated tree is rendered with drawn whitespace/newlines at every token boundary (LF, CRLF, blank lines, occasionally a raw newline inside a string, now and then a string or a prefix line of 4095-70000 bytes), optional text with newlines before the root (multi-line block comments, line comments, references to a multi-line environment variable, any bracket but the one that opens the root, e.g. an '[INFO]' log prefix before an object) (occasionally 255-1000 blank lines, now and then 65535-131072), bare CR and CR LF layouts, and exactly one injected syntax error of a kind whose message cites a line (invalid literal in a list / as an object value, detected at its terminating delimiter; bad character where a key must start; bad character after a key; bad character after a nested container in an object), at a drawn nesting depth; the generator records the byte offset of the detecting character. Oracle: if the error text says 'on line N' (the last such phrase counts) then N == 1 + number of newline bytes before that offset; via ParseList, ParseObject and ParseFile; one document in six is re-encoded to Latin-1 bytes (ill-formed UTF-8: usually rejected without a line, but if a line is cited it must be the right one). Non-trivial = at least one newline before the error and the error inside a nested container, or newlines in text before the root bracket. Distinct = distinct FNV-64a hash of the case JSON. One ParseFile case in three first stores and reads a decoy of exactly the same length (error on another line) under the same path and then replaces it with the document, restoring the modification time.",
 		GenC20, CheckC20)
 }
